@@ -2,7 +2,7 @@
    For every mock whose bodies pass the lock-discipline checker [disciplined] (evaluated by
    vm_compute on the programs lifted from moq's current output), any number of threads,
    any programs of operations with re-entrant callbacks, any schedule. *)
-From Moq Require Import Strs MockSem MockSpec MockSeq_Proofs MockConc MockConc_Proofs.
+From Moq Require Import Strs MockSem MockSpec MockSeq_Proofs MockConc MockConc_Proofs MockAcct_Proofs.
 Local Open Scope list_scope.
 
 (* no two threads are ever simultaneously about to make conflicting accesses to a call
@@ -41,3 +41,40 @@ Proof. intros G. exact (C05_snapshots grow G mk progs s tr). Qed.
 Theorem C05_prefix_between_resets lg tr m :
   resets_of m tr = false -> exists more, fold_left lin_apply tr lg m = lg m ++ more.
 Proof. exact (C05_prefix lg tr m). Qed.
+
+(* ---- no record is lost, torn or duplicated; program order is kept ---- *)
+
+(* In every reachable state, for every thread: the records it has appended, followed by the
+   one record its current call may still owe, are exactly the records of the calls it has
+   started (those that record at all: function set, or -stub), in program order, each being
+   the argument values of its call field by field. *)
+Theorem C05_every_call_recorded_once grow stub resets mk progs s tr t :
+  canonical stub resets mk = true ->
+  (forall t, forallb (wf_op mk resets) (progs t) = true) ->
+  reach grow mk (cinit progs) s tr ->
+  expected stub mk t tr = appended t tr ++ pending stub (cs_thr s t).
+Proof.
+  intros CAN WF R. exact (ai_acct _ _ _ _ _ (reach_ainv grow stub resets mk CAN progs s tr WF R) t).
+Qed.
+
+(* after quiescence nothing is owed: what a thread appended is exactly what its calls are *)
+Corollary C05_quiescent grow stub resets mk progs s tr t :
+  canonical stub resets mk = true ->
+  (forall t, forallb (wf_op mk resets) (progs t) = true) ->
+  reach grow mk (cinit progs) s tr -> finished (cs_thr s t) ->
+  appended t tr = expected stub mk t tr.
+Proof.
+  intros CAN WF R FIN. rewrite (C05_every_call_recorded_once grow stub resets mk progs s tr t CAN WF R).
+  destruct (cs_thr s t) as [|[|[|] ?] [|]]; cbn in FIN; try contradiction; cbn [pending]; rewrite app_nil_r; reflexivity.
+Qed.
+
+(* between resets the memory of a method's call list is exactly the sequence of appends to
+   it: the number of records is the number of (recording) calls linearised since then *)
+Theorem C05_count grow mk progs s tr m :
+  (forall n, n < grow n) ->
+  reach grow mk (cinit progs) s tr -> resets_of m tr = false ->
+  denote (cs_heap s) (cs_hdr s m) = appends_of m tr.
+Proof.
+  intros G R NR. rewrite (C05_atomic_logs grow mk progs s tr G R m).
+  unfold replay. rewrite (fold_lin_apply_no_reset tr empty_logs m NR). reflexivity.
+Qed.
